@@ -231,6 +231,8 @@ def run_cases(exe, cases, workdir, nproc=NCPU, timeout_ms=10000, tag="t", env=No
                            capture_output=True, text=True, env=e)
         if p.returncode != 0:
             raise MachineryError("harness failed on %s: %s" % (j[0], p.stderr[-2000:]))
+        with open(j[1] + ".stderr", "w") as f:
+            f.write(p.stderr[-200000:])
         return j[1]
 
     with ThreadPoolExecutor(max_workers=nproc) as ex:
